@@ -186,7 +186,7 @@ PROPS = {
     "C08": {
         "level": "model_checking",
         "harnesses": [
-            H("H_C08_repeat", "real T.Repeat/executeAction/runAction with 1..2 actions (2 symbolic opcodes each over {return, draw, skip, Fatalf, Errorf, panic}), optional invariant (1 symbolic opcode), -rapid.steps=2, buffer stream of 10 (quick) / 14 (thorough) symbolic words; trace checked by the check/action automaton", reach=["falsified", "passed", "invalid-or-novalid", "step-completed"], quick=Q, thorough=T),
+            H("H_C08_repeat", "real T.Repeat/executeAction/runAction with 1..2 actions (2 symbolic opcodes each over {return, draw, skip, Fatalf, Errorf, panic}), optional invariant (1 symbolic opcode), -rapid.steps=2, buffer stream of 10 (quick) / 12 (thorough) symbolic words; trace checked by the check/action automaton", reach=["falsified", "passed", "invalid-or-novalid", "step-completed"], quick=Q, thorough=T),
             H("H_C08_noValidAction", "one action that always skips, all-ones stream of 400 words: Repeat must give up after validActionTries and fail", reach=["always-skips", "runs"], quick=Q, thorough=T),
         ],
         "assumptions": ENGINE_ASSUME + ["StateMachineActions (reflection) is outside the claim"],
